@@ -150,6 +150,7 @@ type Sim struct {
 	regTick                      int
 	registrations                int
 	nextN                        uint64
+	crowd                        *netip.Prefix // when set, most objects of the history also carry this prefix (many objects under one LPM key)
 	fp                           *vkit.Hash64
 	Log                          []string
 	Failed                       bool
@@ -307,6 +308,11 @@ func (s *Sim) genObj(t *simTable, working *TableModel, id []byte) *Obj {
 				o.Pfx = o.Pfx[:s.Rng.IntN(len(o.Pfx))]
 			}
 			n = s.Rng.IntN(2)
+		}
+		if s.crowd != nil && s.Rng.IntN(10) < 7 && !slices.Contains(o.Pfx, *s.crowd) {
+			// a crowd under one key: the entry of a non-unique LPM index grows to 5-20 objects, inserted in any primary-key order,
+			// shrinks and grows again while snapshots are retained and transactions abort
+			o.Pfx = append(o.Pfx, *s.crowd)
 		}
 		for i := 0; i < n; i++ {
 			// bias to few prefixes so that several objects share one prefix
@@ -948,6 +954,10 @@ func NewSim(r *vkit.Run, idx int, o Opts) *Sim {
 		}
 	}
 	nt := 1 + s.Rng.IntN(o.Tables)
+	if s.Rng.IntN(3) == 0 {
+		p := netip.MustParsePrefix(pfxPool[s.Rng.IntN(len(pfxPool))])
+		s.crowd = &p
+	}
 	for i := 0; i < nt; i++ {
 		sc := Schemas[pick[s.Rng.IntN(len(pick))]]
 		name := fmt.Sprintf("t%d%s", i, sc.Name)
